@@ -164,7 +164,43 @@ def make_strict(r, seq):
     return out
 
 
+LOWQ = [0x00, 0xFF, 0x20, 0xCC]            # bytes the atom quality heuristic of atoms.c ranks low
+DISTINCT = [0x01, 0x02, 0x03, 0x04, 0x11, 0x41, 0x42, 0x61, 0xAA, 0xBB, 0x7F, 0x90, 0xE9]
+
+
+def gen_atom_run(r):
+    """a run of 6-12 byte / ?? / nibble-mask tokens (no jump, negation or alternative in between) whose best 4-token
+    atom window lies INSIDE the run and begins with a wildcard: low-quality bytes at the edges, `??` + distinctive bytes
+    + `??` in the middle (atoms.c slides a window over such runs and trims leading wildcards: the atom's bytes and the
+    code position verification starts from must stay in step)"""
+    def low():
+        u = r.random()
+        if u < 0.55: return ("b", r.choice(LOWQ))
+        if u < 0.75: return ("a",)
+        m = r.choice([0xF0, 0x0F])
+        return ("m", r.choice(VALS) & m, m)
+    left = [("b", r.choice(LOWQ + [0x10, 0x41]))] + [low() for _ in range(r.choice([0, 0, 1, 2, 3]))]
+    wild = [("a",)] * r.choice([1, 1, 1, 2])
+    core = [("b", c) for c in r.sample(DISTINCT, r.choice([2, 3, 3, 3]))]
+    if r.random() < 0.15:
+        m = r.choice([0xF0, 0x0F]); core[1] = ("m", core[1][1] & m, m)
+    after = [("a",)] if r.random() < 0.75 else [low()]
+    right = [low() for _ in range(r.choice([0, 1, 1, 2, 3]))] + [("b", r.choice(LOWQ + [0x20, 0x30, 0x02]))]
+    run = left + wild + core + after + right
+    while len(run) < 6:
+        run.insert(len(left), low())
+    return run[:12]
+
+
 def gen_pattern(r):
+    if r.random() < 0.16:
+        run = gen_atom_run(r)
+        u = r.random()
+        if u < 0.25:      # something before the run (the run is not the first thing verification sees)
+            return gen_seq(r, r.choice([1, 2]), 0, False, [0]) + [gen_jump(r, False, False)] + run
+        if u < 0.45:
+            return run + [gen_jump(r, False, False)] + gen_seq(r, r.choice([1, 2]), 0, False, [0])
+        return run
     for _ in range(50):
         bigs = [r.choice([0, 0, 0, 1, 1, 2, 3])]
         n = r.choice([1, 2, 2, 3, 3, 4, 4, 5, 6, 7, 8, 10])
@@ -350,6 +386,9 @@ CORPUS = [
     ("01 02 [201] 03 04", bytes([1, 2]) + b"\x41" * 200 + bytes([3, 4])),
     ("01 02 [200-] 03 04", bytes([1, 2]) + b"\x41" * 200 + bytes([3, 4, 3, 4])),
     ("01 02 [-] 03 04 [2-201] 05", bytes([1, 2, 1, 2, 3, 4]) + b"\x05" * 3 + b"\0" * 199 + b"\x05"),
+    # the best atom window is interior and begins with a wildcard (atoms.c window shift)
+    ("10 ?? 41 42 43 ?? 20 30", b"\x00\x00\x00\x00" + bytes([0x10, 0x99, 0x41, 0x42, 0x43, 0x77, 0x20, 0x30]) + b"\x00"),
+    ("1? ?? 41 42 43 ?? 2?", b"\x00\x00\x00\x00" + bytes([0x1A, 0x99, 0x41, 0x42, 0x43, 0x77, 0x2B]) + b"\x41\x42\x43"),
     ("01 ?2 [1] ~03 ~?4 ( 05 | 06 07 )", bytes([1, 0x32, 9, 4, 0x15, 6, 7, 1, 0x02, 9, 3, 0x15, 5])),
 ]
 
